@@ -132,18 +132,26 @@ structure PcrPre {fs : Files} {lines : List Str} {a : Assembly} (st : Stages fs 
   h4 : st.ss4[i]? = some s4
   rel34 : AddrRel s3 s4
   rel4 : SameButAdditional s4 s
-  fix : fixOne st.ss4 i s4 = .ok s
+  /-- `fix_addresses` (giving `s1`), then `fit_operand_width` -/
+  fix : ∃ s1, fixOne st.ss4 i s4 = .ok s1 ∧ fitWidth s1 = .ok s
   idx : (s4.operand.kind == .indexed || s4.operand.kind == .extIndirect) = true
   left : LeftOK s4.operand s4.pkg
   choices : s4.pkg.choices ≠ []
   stored : ∃ target start v, fixRel st.ss4 s4 = .ok target ∧ addrIntOf st.ss4 i = some start ∧
-      numericOfInt (pcrJump s4 target start) (some s4.pcrHint) .none = .ok v ∧ s = withAdditional s4 v
+      numericOfInt (pcrJump s4 target start) (some s4.pcrHint) .none = .ok v ∧
+      fitWidth (withAdditional s4 v) = .ok s
+  /-- the row is a row of the instruction table -/
+  row : s4.row ∈ Gen.instructions
+  /-- op code and post byte: the indexed op code of the row, and one byte -/
+  codes : opVal s4.row.ind = .ok s4.pkg.opCode ∧ s4.pkg.postByte.hexLen? = some 2
+  /-- on the 8-bit form the statement is one byte longer than the indexed base size -/
+  size8 : s4.pcrHint = 2 → s4.pkg.size = s4.row.indSz + 1
 
 theorem Stages.pcr_pre {fs : Files} {lines : List Str} {a : Assembly} (st : Stages fs lines a)
     {i : Nat} {s : Stmt} (hs : a.stmts[i]? = some s) (hn : s.pkg.needsRes = true) :
     ∃ s3 s4, PcrPre st i s s3 s4 := by
   obtain ⟨s4, hs4, hsame⟩ := (fixAll_pw st.hfix).get' hs
-  obtain ⟨s', hs', hfix⟩ := (fixAll_ok st.hfix).2 i s4 hs4
+  obtain ⟨s1, s', hs', hfix, hfit⟩ := (fixAll_ok2 st.hfix).2 i s4 hs4
   rw [hs] at hs'; cases hs'
   rw [Nat.zero_add] at hfix
   obtain ⟨s3, hs3, hrel34⟩ := (assignAddrs_pw st.haddr).get' hs4
@@ -186,8 +194,25 @@ theorem Stages.pcr_pre {fs : Files} {lines : List Str} {a : Assembly} (st : Stag
     cases hv : s4.operand.value <;> rw [hv] at hval <;> first | rfl | cases hval
   have hv3 : s4.operand.value ≠ .pyNone := by
     intro hv; rw [hv] at hval; cases hval
-  exact ⟨s3, s4, hs3, hs4, hrel34, hsame, hfix, hidx, hleft4, by rw [hpk4.1]; exact hch3,
-    fixOne_pcr hk hv1 hv2 hv3 hn4 hfix⟩
+  -- op code, post byte and size of the settled statement
+  obtain ⟨hop3, hsz3⟩ := pcrLoop_width8 st.htranslate st.hpcr i s3 hs3 hch3
+  have hpb3 : s3.pkg.postByte.hexLen? = some 2 := by
+    rcases hok.choices with h0 | ⟨_, _, _, _, _, ⟨_, _, _, hl⟩, _⟩
+    · exact absurd h0 hch3
+    · exact hl
+  have h34 : s4.row = s3.row ∧ s4.pkg.opCode = s3.pkg.opCode ∧ s4.pkg.postByte = s3.pkg.postByte ∧
+      s4.pkg.size = s3.pkg.size ∧ s4.pcrHint = s3.pcrHint := by
+    obtain ⟨v, rfl⟩ := hrel34; exact ⟨rfl, rfl, rfl, rfl, rfl⟩
+  have hrow3 : s3.row ∈ Gen.instructions := by
+    obtain ⟨s0, hs0, hk0⟩ := ((st.keep01.trans st.keep12 (fun _ _ _ => KeepRel.trans)).trans st.keep23
+      (fun _ _ _ => KeepRel.trans)).get' hs3
+    rw [hk0.2]
+    exact (hpar s0 (List.mem_of_getElem? hs0)).1
+  obtain ⟨target, start, v, q1, q2, q3, rfl⟩ := fixOne_pcr hk hv1 hv2 hv3 hn4 hfix
+  exact ⟨s3, s4, ⟨hs3, hs4, hrel34, hsame, ⟨_, hfix, hfit⟩, hidx, hleft4, by rw [hpk4.1]; exact hch3,
+    ⟨target, start, v, q1, q2, q3, hfit⟩, by rw [h34.1]; exact hrow3,
+    ⟨by rw [h34.1, h34.2.1]; exact hop3, by rw [h34.2.2.1]; exact hpb3⟩,
+    fun hh => by rw [h34.2.2.2.1, h34.1]; exact hsz3 (by rw [← h34.2.2.2.2]; exact hh)⟩⟩
 
 /-! ### the distance bound of a statement settled on the 8-bit form -/
 
@@ -284,10 +309,83 @@ def Dist8 (addl : Value) (x y size : Nat) (d : Int) : Prop :=
   (∃ l r op m k hh mm nn, addl = .expr l r op m true ∧ (if l.isAddress then r else l) = .numeric k hh mm nn ∧
     ((op = '+' ∧ d = (y : Int) + k - x - size) ∨ (op = '-' ∧ d = (y : Int) - k - x - size)))
 
+/-- the instruction table: a row with an indexed op code is neither pseudo nor special, and its indexed base
+size is the op code plus one byte (the post byte) -/
+def indRowOk (r : Gen.InstrRow) : Bool :=
+  match opVal r.ind with
+  | .ok v => !r.isPseudo && !r.isSpecial &&
+      (match v.hexLen? with | some a => 2 * r.indSz == a + 2 | none => false)
+  | .error _ => true
+
+theorem indRowOk_all : ∀ r ∈ Gen.instructions, indRowOk r = true := by decide +kernel
+
+/-- `NumericValue(d, size_hint=2)` for a signed byte -/
+theorem numericOfInt_signed {d : Int} {hint : Option Nat} {md : Mode} {v : Value}
+    (h : numericOfInt d hint md = .ok v) : ∃ hh mm, v = .numeric d.natAbs hh mm (decide (d < 0)) := by
+  unfold numericOfInt at h
+  split at h
+  · cases h
+  · simp only [Except.ok.injEq] at h
+    exact ⟨_, _, h.symm⟩
+
+theorem fitInt_natAbs (d : Int) : fitInt d.natAbs (decide (d < 0)) = d := by
+  unfold fitInt
+  by_cases hd : d < 0
+  · simp only [hd, decide_true, if_true]; omega
+  · simp only [hd, decide_false, Bool.false_eq_true, if_false]; omega
+
+/-- **the field of the 8-bit PCR form after `fit_operand_width`**: `fix_addresses` stored
+`NumericValue(d, size_hint=2)` for a signed byte `d`; the statement is op code + post byte + ONE byte, so
+`fit_operand_width` renders the field at two hex digits, a negative `d` in two's complement -/
+theorem PcrPre.field8 {fs : Files} {lines : List Str} {a : Assembly} {st : Stages fs lines a}
+    {i : Nat} {s s3 s4 : Stmt} (pre : PcrPre st i s s3 s4) (hh : s4.pcrHint = 2) {d : Int} {v : Value}
+    (hnum : numericOfInt d (some 2) .none = .ok v) (hfit : fitWidth (withAdditional s4 v) = .ok s) :
+    fitWidth (withAdditional s v) = .ok s ∧ -128 ≤ d ∧ d < 256 ∧
+      s.pkg.additional = .numeric (d % 256).toNat (some 2) .extended false := by
+  have hw : withAdditional s v = withAdditional s4 v := by
+    obtain ⟨w, hw⟩ := pre.rel4; rw [hw]; rfl
+  obtain ⟨hh', mm, rfl⟩ := numericOfInt_signed hnum
+  have htab := indRowOk_all _ pre.row
+  unfold indRowOk at htab
+  rw [pre.codes.1] at htab
+  simp only [Bool.and_eq_true, Bool.not_eq_true'] at htab
+  obtain ⟨⟨hp, hsp⟩, hlen⟩ := htab
+  have hskip : fitSkipped (withAdditional s4 (.numeric d.natAbs hh' mm (decide (d < 0)))).row = false := by
+    show fitSkipped s4.row = false
+    unfold fitSkipped; rw [hp, hsp]; rfl
+  obtain ⟨a', b', w, ha, hb, hw24, hsz, hlo, hhi, hs⟩ := fitWidth_numeric hfit hskip rfl
+  have ha' : s4.pkg.opCode.hexLen? = some a' := ha
+  have hb' : s4.pkg.postByte.hexLen? = some b' := hb
+  rw [ha'] at hlen
+  simp only [beq_iff_eq] at hlen
+  rw [pre.codes.2] at hb'
+  have hb2 : b' = 2 := (Option.some.inj hb').symm
+  have hsz' : 2 * s4.pkg.size = a' + b' + w := hsz
+  rw [pre.size8 hh] at hsz'
+  have hw2 : w = 2 := by omega
+  subst hw2
+  rw [fitInt_natAbs] at hs hlo hhi
+  have e1 : (2 : Int) ^ (4 * 2) = 256 := by decide
+  have e2 : (2 : Int) ^ (4 * 2 - 1) = 128 := by decide
+  rw [e1] at hs hhi
+  rw [e2] at hlo
+  refine ⟨by rw [hw]; exact hfit, hlo, hhi, ?_⟩
+  rw [hs]; rfl
+
+/-- the final statement differs from the one that entered `fix_addresses` in `additional` only -/
+theorem PcrPre.same {fs : Files} {lines : List Str} {a : Assembly} {st : Stages fs lines a}
+    {i : Nat} {s s3 s4 : Stmt} (pre : PcrPre st i s s3 s4) :
+    s.pcrHint = s4.pcrHint ∧ s.pkg.size = s4.pkg.size ∧ (∀ v, withAdditional s v = withAdditional s4 v) ∧
+      (∀ t x, pcrJump s t x = pcrJump s4 t x) ∧ s.operand = s4.operand := by
+  obtain ⟨w, hw⟩ := pre.rel4
+  rw [hw]
+  exact ⟨rfl, rfl, fun _ => rfl, fun _ _ => rfl, rfl⟩
+
 /-- **width of the 8-bit PCR form**: for a PCR statement `s` of an accepted program settled on the 8-bit form,
 with no ORG between it and the statement `t` its operand names, the signed distance `d` from the end of `s` to
-the target (`address(t)`, `address(t) + k` or `address(t) − k`, computed in ℤ without wrap) lies in `−128 .. 127`,
-and `fix_addresses` stores exactly `NumericValue(d, size_hint=2)` -/
+the target (`address(t)`, `address(t) + k` or `address(t) − k`, computed in ℤ without wrap) lies in `−128 .. 127`;
+`fix_addresses` computes `NumericValue(d, size_hint=2)`, `fit_operand_width` accepts it, and the final field is
+the two's complement byte of `d` -/
 theorem Stages.pcr8_stored {fs : Files} {lines : List Str} {a : Assembly} (st : Stages fs lines a)
     {i : Nat} {s s3 s4 : Stmt} (hs : a.stmts[i]? = some s) (hn : s.pkg.needsRes = true) (hh : s.pcrHint = 2)
     (pre : PcrPre st i s s3 s4) :
@@ -295,7 +393,8 @@ theorem Stages.pcr8_stored {fs : Files} {lines : List Str} {a : Assembly} (st : 
       ∀ t, a.stmts[b]? = some t →
         (∀ j u, min b i < j → j ≤ max b i → a.stmts[j]? = some u → u.row.mnemonic ≠ "ORG") →
         ∃ x y v, ∃ d : Int, addrNat s = some x ∧ addrNat t = some y ∧ -128 ≤ d ∧ d ≤ 127 ∧
-          numericOfInt d (some 2) .none = .ok v ∧ s.pkg.additional = v ∧
+          numericOfInt d (some 2) .none = .ok v ∧ fitWidth (withAdditional s v) = .ok s ∧
+          s.pkg.additional = .numeric (d % 256).toNat (some 2) .extended false ∧
           Dist8 s4.pkg.additional x y s.pkg.size d := by
   obtain ⟨b, hb, hf, hdist⟩ := st.pcr8_dist hs hn hh pre
   refine ⟨b, hb, hf, ?_⟩
@@ -305,9 +404,10 @@ theorem Stages.pcr8_stored {fs : Files} {lines : List Str} {a : Assembly} (st : 
   have hstart' : start = x := by
     rw [st.addrIntOf4 hs, hx] at hstart; exact (Option.some.inj hstart).symm
   subst hstart'
-  have hh4 : s4.pcrHint = 2 := by rw [hsv] at hh; exact hh
-  have hsz : s.pkg.size = s4.pkg.size := by rw [hsv]; rfl
-  have hadd : s.pkg.additional = v := by rw [hsv]; rfl
+  have e4 : s.pcrHint = s4.pcrHint ∧ s.pkg.size = s4.pkg.size := by
+    obtain ⟨w, hw⟩ := pre.rel4; rw [hw]; exact ⟨rfl, rfl⟩
+  have hh4 : s4.pcrHint = 2 := by rw [← e4.1]; exact hh
+  have hsz : s.pkg.size = s4.pkg.size := e4.2
   rw [pcrJump_hint2 hh4, hh4] at hnum
   rw [hsz] at hlo hhi ⊢
   cases he : s4.pkg.additional.isAddrExpr with
@@ -320,7 +420,8 @@ theorem Stages.pcr8_stored {fs : Files} {lines : List Str} {a : Assembly} (st : 
     have hd : ((y : Int) - start - s4.pkg.size + 32768) % 65536 - 32768 = (y : Int) - start - s4.pkg.size := by
       omega
     rw [hd] at hnum
-    exact ⟨start, y, v, _, hx, hy, by omega, by omega, hnum, hadd, .inl ⟨he, rfl⟩⟩
+    obtain ⟨f1, _, _, f2⟩ := pre.field8 hh4 hnum hsv
+    exact ⟨start, y, v, _, hx, hy, by omega, by omega, hnum, f1, f2, .inl ⟨he, rfl⟩⟩
   | true =>
     cases hav : s4.pkg.additional with
     | expr l r op m ae =>
@@ -336,12 +437,14 @@ theorem Stages.pcr8_stored {fs : Files} {lines : List Str} {a : Assembly} (st : 
         · have hd : ((target : Int) - start - s4.pkg.size + 32768) % 65536 - 32768 =
               (y : Int) + k - start - s4.pkg.size := by omega
           rw [hd] at hnum
-          exact ⟨start, y, v, _, hx, hy, by omega, by omega, hnum, hadd,
+          obtain ⟨f1, _, _, f2⟩ := pre.field8 hh4 hnum hsv
+          exact ⟨start, y, v, _, hx, hy, by omega, by omega, hnum, f1, f2,
             .inr ⟨l, r, '+', m, k, hk1, hk2, hk3, rfl, hoth, .inl ⟨rfl, rfl⟩⟩⟩
         · have hd : ((target : Int) - start - s4.pkg.size + 32768) % 65536 - 32768 =
               (y : Int) - k - start - s4.pkg.size := by omega
           rw [hd] at hnum
-          exact ⟨start, y, v, _, hx, hy, by omega, by omega, hnum, hadd,
+          obtain ⟨f1, _, _, f2⟩ := pre.field8 hh4 hnum hsv
+          exact ⟨start, y, v, _, hx, hy, by omega, by omega, hnum, f1, f2,
             .inr ⟨l, r, '-', m, k, hk1, hk2, hk3, rfl, hoth, .inr ⟨rfl, rfl⟩⟩⟩
     | _ => rw [hav] at he; simp [Value.isAddrExpr] at he
 
